@@ -34,6 +34,7 @@ type Doc struct {
 	N  map[string][]int  `json:"n"` // numeric field -> values
 	D  map[string][]int  `json:"d"` // date field -> whole seconds
 	K  map[string][]Term `json:"k"` // keyword field -> values (aggregations / sorting)
+	G  map[string][][]int `json:"g,omitempty"` // geo point field -> [lon, lat] in whole degrees
 }
 
 type Seg struct {
@@ -72,6 +73,11 @@ func RealDoc(d Doc) *bluge.Document {
 	for f, vals := range d.K {
 		for _, v := range vals {
 			rd.AddField(bluge.NewKeywordField(f, v.String()).StoreValue().Sortable().Aggregatable())
+		}
+	}
+	for f, pts := range d.G {
+		for _, p := range pts {
+			rd.AddField(bluge.NewGeoPointField(f, float64(p[0]), float64(p[1])))
 		}
 	}
 	return rd
@@ -162,6 +168,9 @@ type Q struct {
 	Should []*Q     `json:"should,omitempty"`
 	Nots   []*Q     `json:"nots,omitempty"`
 	Min    int      `json:"min"`
+	// geo bounding box in half degrees (so that no point lies on an edge): left, top, right, bottom
+	GL, GT, GR, GB int `json:"-"`
+	Box            []int `json:"box,omitempty"`
 }
 
 // Re is a regular expression tree.
@@ -200,6 +209,8 @@ func (r *Re) String() string {
 func (q *Q) fix() {
 	// prepare the JSON forms that depend on the kind
 	switch q.T {
+	case "geobox":
+		q.Box = []int{q.GL, q.GT, q.GR, q.GB}
 	case "match":
 		if q.Terms == nil {
 			q.Terms = []Term{}
@@ -326,6 +337,8 @@ func (q *Q) Real() (bluge.Query, error) {
 			hi = Epoch.Add(time.Duration(q.Hi.(int)) * time.Second)
 		}
 		return bluge.NewDateRangeInclusiveQuery(lo, hi, q.ILo, q.IHi).SetField(q.F), nil
+	case "geobox":
+		return bluge.NewGeoBoundingBoxQuery(float64(q.GL)/2, float64(q.GT)/2, float64(q.GR)/2, float64(q.GB)/2).SetField(q.F), nil
 	case "bool":
 		bq := bluge.NewBooleanQuery()
 		for _, c := range q.Must {
@@ -426,6 +439,9 @@ func RandCorpus(r *rand.Rand, nd, ns int, rich bool) Corpus {
 				if r.Intn(5) > 0 {
 					d.K["k1"] = append(d.K["k1"], Vocab[r.Intn(4)])
 				}
+				if r.Intn(3) > 0 {
+					d.G = map[string][][]int{"g1": {{[]int{-179, -170, -10, 0, 10, 170, 179}[r.Intn(7)], []int{-80, -10, 0, 10, 80}[r.Intn(5)]}}}
+				}
 			}
 			sg.Docs = append(sg.Docs, d)
 		}
@@ -443,6 +459,22 @@ func field(r *rand.Rand) string { return []string{"f1", "f1", "f2"}[r.Intn(3)] }
 // RandLeaf draws a leaf query.
 func RandLeaf(r *rand.Rand, rich bool) *Q {
 	n := 12
+	if rich {
+		n = 16
+	}
+	if rich && r.Intn(n) == 15 {
+		// a box with edges on half degrees; one in four crosses the date line (right < left)
+		xs := []int{-359, -341, -21, -1, 1, 21, 339, 359}
+		ys := []int{-161, -21, -1, 1, 21, 161}
+		q := &Q{T: "geobox", F: "g1", GL: xs[r.Intn(len(xs))], GR: xs[r.Intn(len(xs))], GT: ys[r.Intn(len(ys))], GB: ys[r.Intn(len(ys))]}
+		if q.GT < q.GB {
+			q.GT, q.GB = q.GB, q.GT
+		}
+		if q.GR < q.GL && r.Intn(4) > 0 {
+			q.GL, q.GR = q.GR, q.GL
+		}
+		return q
+	}
 	if rich {
 		n = 15
 	}
@@ -645,6 +677,9 @@ func FromJSON(m map[string]any) *Q {
 		q.R = reFrom(m["r"].(map[string]any))
 	case "trange":
 		q.Lo, q.Hi = toTerm(m["lo"]), toTerm(m["hi"])
+	case "geobox":
+		b := m["box"].([]any)
+		q.GL, q.GT, q.GR, q.GB = int(b[0].(float64)), int(b[1].(float64)), int(b[2].(float64)), int(b[3].(float64))
 	case "nrange", "drange":
 		q.Lo, q.Hi = num("lo"), num("hi")
 	case "bool":
